@@ -832,7 +832,7 @@ def main(ck: Check) -> int:
     xt = ck.c14_extracted
     ex.extra['extracted_from_source'] = {'decorators': xt['decorators'], 'memoisation_sites': len(xt['sites']), 'tables': dict(xt['tables']),
                                          'repr_hit_validated_by_eq': xt['repr_checked'], 'id_keyed_objects_pinned': xt['id_pinned']}
-    ck.decide(proof, ex, deep_search=lambda: explore(ck, n=700, seed=ck.seed + 1000, n_table=0, n_truth=900, shrink_seconds=300))
+    ck.decide(proof, ex, deep_search=lambda: explore(ck, n=400, seed=ck.seed + 1000, n_table=0, n_truth=500, shrink_seconds=240))
     partial = ['C14_fwdref_partial (referents remembered by forward-reference proxies are current only while no name is bound twice; '
                'C14_fwdref_counterexample)',
                'C14_repr_key_partial / C14_id_key_partial describe the code BEFORE the fixes C14_repr_key / C14_id_key; '
